@@ -197,6 +197,8 @@ func runC08(c *core.Ctx) {
 			checkReplyPaths(c, "R8.1", fn, role, m)
 		}
 	}
+	c.Rule("R8.8", "a rebuilt multi-key get request keeps keys, opaques and quiet flags aligned (one origin for the three slices): otherwise replies go out under another key's opaque or quiet flag", 4)
+	checkParallelSlices(c, "R8.8")
 	runR82(c)
 	runR83(c)
 	runR84(c)
